@@ -87,6 +87,23 @@ contract('parso.python.tokenize._find_fstring_string',
                                    'tos.previous_lines == old(top(fstring_stack).previous_lines)',
                                    'implies(old(top(fstring_stack).previous_lines) != "", tos.last_string_start_pos == old(top(fstring_stack).last_string_start_pos))',
                                    'implies(old(top(fstring_stack).previous_lines) == "", tos.last_string_start_pos == (lnum, pos))'])},
+         replay=dict(observe={'line': 'line', 'pos': 'pos', 'lnum': 'lnum'},
+                     script='from parso.python.tokenize import _find_fstring_string, FStringNode, _get_token_collection\n'
+                            'from parso.utils import PythonVersionInfo\n'
+                            'endpats = _get_token_collection(PythonVersionInfo(3, 10)).endpats\n'
+                            'if not (0 <= {pos} <= len({line})):\n    return None\n'
+                            'for quote in (chr(34), chr(39) * 3):\n'
+                            '    for prev, depth in (("", 0), ("ab" + chr(10), 0), ("", 1)):\n'
+                            '        node = FStringNode(quote); node.previous_lines = prev; node.last_string_start_pos = (7, 7) if prev else None\n'
+                            '        node.parentheses_count = depth; node.format_spec_count = depth\n'
+                            '        s, p = _find_fstring_string(endpats, [node], {line}, {lnum}, {pos})\n'
+                            '        if not ({pos} <= p <= len({line})):\n            return "new position %r" % (p,)\n'
+                            '        piece = {line}[{pos}:p]\n'
+                            '        ok = (s == "" and node.previous_lines == prev + piece) or (s == prev + piece and node.previous_lines == prev)\n'
+                            '        if not ok:\n            return "text not conserved: returned %r, kept %r, consumed %r after %r" % (s, node.previous_lines, piece, prev)\n'
+                            '        if prev and node.last_string_start_pos != (7, 7):\n            return "start position of a continued literal overwritten: %r" % (node.last_string_start_pos,)\n'
+                            '        if not prev and p > {pos} and node.last_string_start_pos != ({lnum}, {pos}):\n            return "start position %r" % (node.last_string_start_pos,)\n'
+                            'return None\n'),
          modifies=['last_string_start_pos', 'previous_lines'], props=['C01', 'C03', 'C09'])
 
 # ---- _split_illegal_unicode_name: a NAME match that is not an identifier is cut into NAME / ERRORTOKEN pieces.
